@@ -556,25 +556,43 @@ def singleByteIndex (name : String) : Array Nat :=
   | some (_, a) => a
   | none => #[]
 
-/-- ISO-8859-8-I uses index ISO-8859-8 -/
-def singleByteNames : List (String × String) :=
-  (singleByteIndexes.map fun (n, _) => (n, n)) ++ [("ISO-8859-8-I", "ISO-8859-8")]
+/-- which decoder (and, for the single-byte ones, which index) an encoding uses -/
+inductive Kind
+  | utf8 | gb18030 | big5 | eucJp | iso2022Jp | shiftJis | eucKr | replacement | utf16 (be : Bool) | userDefined
+  | singleByte (index : String)
+deriving DecidableEq, Repr
 
-def decoderOfName (name : String) : Option Decoder :=
+def kindOfName (name : String) : Option Kind :=
   match name with
-  | "UTF-8" => some utf8
-  | "GBK" => some gb18030
-  | "gb18030" => some gb18030
-  | "Big5" => some big5
-  | "EUC-JP" => some eucJp
-  | "ISO-2022-JP" => some iso2022Jp
-  | "Shift_JIS" => some shiftJis
-  | "EUC-KR" => some eucKr
-  | "replacement" => some replacement
-  | "UTF-16BE" => some (utf16 true)
-  | "UTF-16LE" => some (utf16 false)
-  | "x-user-defined" => some userDefined
-  | n => (singleByteNames.find? (·.1 == n)).map fun (_, idx) => singleByte (singleByteIndex idx)
+  | "UTF-8" => some .utf8
+  | "GBK" => some .gb18030        -- "GBK's decoder is gb18030's decoder"
+  | "gb18030" => some .gb18030
+  | "Big5" => some .big5
+  | "EUC-JP" => some .eucJp
+  | "ISO-2022-JP" => some .iso2022Jp
+  | "Shift_JIS" => some .shiftJis
+  | "EUC-KR" => some .eucKr
+  | "replacement" => some .replacement
+  | "UTF-16BE" => some (.utf16 true)
+  | "UTF-16LE" => some (.utf16 false)
+  | "x-user-defined" => some .userDefined
+  | "ISO-8859-8-I" => some (.singleByte "ISO-8859-8")   -- ISO-8859-8-I uses index ISO-8859-8
+  | n => if singleByteIndexes.any (·.1 == n) then some (.singleByte n) else none
+
+def decoderOfKind : Kind → Decoder
+  | .utf8 => utf8
+  | .gb18030 => gb18030
+  | .big5 => big5
+  | .eucJp => eucJp
+  | .iso2022Jp => iso2022Jp
+  | .shiftJis => shiftJis
+  | .eucKr => eucKr
+  | .replacement => replacement
+  | .utf16 be => utf16 be
+  | .userDefined => userDefined
+  | .singleByte index => singleByte (singleByteIndex index)
+
+def decoderOfName (name : String) : Option Decoder := (kindOfName name).map decoderOfKind
 
 def runUtf8 := run utf8
 def runUtf16 (be : Bool) := run (utf16 be)
